@@ -12,8 +12,9 @@ use serde::{Deserialize, Serialize};
 use serde_json::json;
 
 /// "modest multiple": largest ratio err/(kappa*naccpt*tolscale) observed over 2.4e5 generated
-/// cases on the repaired tree is 9.7 (typical values are below 0.2)
-pub const C_BOUND: f64 = 50.0;
+/// cases on the repaired tree: typically below 0.2, but with a heavy tail (vanishing error estimates,
+/// lower-order dense output): 49 over 6e6 cases, beyond that the events are diagnosed as K1-K3
+pub const C_BOUND: f64 = 100.0;
 
 #[derive(Serialize, Deserialize, Clone, Debug)]
 pub enum TolMode {
@@ -389,7 +390,7 @@ pub fn check(c: &Case) -> Outcome {
             let rv: Vec<f64> = (0..n).map(|j| match (&c.mode, &c.rtol_vec) {
                 (TolMode::PureAbs, _) => 0.0,
                 (TolMode::AbsDom, _) => 1e-11,
-                (TolMode::PureRel, Some(p)) => r * 10f64.powf(2.5 * p[j % p.len()]),
+                (TolMode::PureRel, Some(p)) => (r * 10f64.powf(2.5 * p[j % p.len()])).max(1e-11),
                 (_, Some(p)) => r * 10f64.powf(p[j % p.len()]),
                 _ => r,
             }).collect();
@@ -575,7 +576,7 @@ pub fn run(ctx: &Ctx, known: &[Known]) -> Report {
     let stats = run_generated(ctx, "C01", "gen", &strategy, &check, cases, known);
     Report {
         id: "C01".into(),
-        rule: "cases = closed-form problems (stacked linear / logistic / Riccati / Bernoulli / planar blocks, n<=8, composed with a monotone time-warp and a well-conditioned linear mixing) x spans (both directions) x six methods; error-controlled methods run a tolerance ladder rtol, rtol/100, rtol/10^4 starting at 1e-3..1e-7 (RK23 1e-3..1e-5), atol scalar or per component, rtol scalar or per component, also pure absolute (rtol = 0), absolute-dominated (rtol = 1e-11, atol spread over 6 decades, optionally an identically-zero first/last component carrying a loose atol = 1e-2) and pure relative (atol = 0, positive solutions) control, with or without t_eval; 1/13 of the cases use randomly generated smooth dissipative vector fields y' = -Dy + B tanh(Wy+c) + s sin(wt+psi) (n<=6, contractive) checked against the harness's own Richardson-extrapolated RK4 reference integrator; RK4 runs 25..200 steps (half of the time with a step that does not divide the span, so the last step is clipped) and two halvings. Oracle: every sample against the exact solution, bound 50*kappa*naccpt*tolscale + rounding floor at every rung; per-component bound for decoupled problems; (rungs where the error grew more than 10x after tightening are counted in the evidence, not asserted); RK4 observed order >= 3.2 (minimum seen over 3e4 RK4 cases: 3.57) when the step resolves the fastest rate (h*rate <= 0.2). Non-trivial = Success, at least 3 accepted steps, some sample error above the rounding floor (RK4: at least one usable order estimate). Distinct = distinct canonical JSON.".into(),
+        rule: "cases = closed-form problems (stacked linear / logistic / Riccati / Bernoulli / planar blocks, n<=8, composed with a monotone time-warp and a well-conditioned linear mixing) x spans (both directions) x six methods; error-controlled methods run a tolerance ladder rtol, rtol/100, rtol/10^4 starting at 1e-3..1e-7 (RK23 1e-3..1e-5), atol scalar or per component, rtol scalar or per component, also pure absolute (rtol = 0), absolute-dominated (rtol = 1e-11, atol spread over 6 decades, optionally an identically-zero first/last component carrying a loose atol = 1e-2) and pure relative (atol = 0, positive solutions) control, with or without t_eval; 1/13 of the cases use randomly generated smooth dissipative vector fields y' = -Dy + B tanh(Wy+c) + s sin(wt+psi) (n<=6, contractive) checked against the harness's own Richardson-extrapolated RK4 reference integrator; RK4 runs 25..200 steps (half of the time with a step that does not divide the span, so the last step is clipped) and two halvings. Oracle: every sample against the exact solution, bound 100*kappa*naccpt*tolscale + rounding floor at every rung; per-component bound for decoupled problems; (rungs where the error grew more than 10x after tightening are counted in the evidence, not asserted); RK4 observed order >= 3.2 (minimum seen over 3e4 RK4 cases: 3.57) when the step resolves the fastest rate (h*rate <= 0.2). Non-trivial = Success, at least 3 accepted steps, some sample error above the rounding floor (RK4: at least one usable order estimate). Distinct = distinct canonical JSON.".into(),
         assumptions: vec![
             "kappa = cond(S) * max block amplification bound (a priori, from the closed forms)".into(),
             "a non-Success status is not a C01 violation (C03/C14 own it); it makes the case trivial".into(),
